@@ -37,6 +37,7 @@ import (
 	"fmt"
 	"os"
 	"reflect"
+	"strconv"
 	"strings"
 
 	"github.com/kaptinlin/gozod/core"
@@ -393,6 +394,11 @@ func runOwn(c hx.Config, o *hx.Out) error {
 	nCases := 900
 	if c.Thorough() {
 		nCases = 40000
+	}
+	// C15_AIM=<k>: a modelled Go function changed since its structure was recorded (vlib/c15.py): k times as many cases
+	if k, err := strconv.Atoi(os.Getenv("C15_AIM")); err == nil && k > 1 && k <= 16 {
+		nCases *= k
+		o.Count("own:aimed-by-fingerprint")
 	}
 	root := hx.NewRng(c.Seed ^ 0xC15C)
 	for ci := 0; ci < nCases; ci++ {
